@@ -205,6 +205,10 @@ func (x *Exec) invoke(st *State, fr *Frame, call *ssa.CallCommon, recv *Val, arg
 		}
 	}
 	name := "(" + call.Value.Type().String() + ")." + call.Method.Name()
+	if res, ok := x.ifaceFileModel(st, call, recv, args, pos); ok {
+		cont(st, res)
+		return
+	}
 	if c := x.w.Contracts[name]; c != nil {
 		sig := call.Method.Type().(*types.Signature)
 		x.callByContractIface(st, fr, c, sig, recv, args, pos, cont)
